@@ -347,7 +347,7 @@ func setDigest(d string) {
 }
 
 // routeLib: desync.Tar / desync.UnTar with desync.NewLocalFS, in process.
-func (e *c05Env) routeLib(tree *c05Node, srcDir string, src []*c05Ent, cliBytes []byte, nso, nsp, overwrite bool) {
+func (e *c05Env) routeLib(tree *c05Node, srcDir string, src []*c05Ent, cliBytes []byte, nso, nsp, overwrite, withModel bool) {
 	c := &c05Case{Tree: tree, Route: "lib", Digest: "sha512-256", NoSameOwner: nso, NoSamePerm: nsp, Entries: len(src)}
 	var buf bytes.Buffer
 	err := desync.Tar(context.Background(), &buf, desync.NewLocalFS(srcDir, desync.LocalFSOptions{}))
@@ -376,6 +376,9 @@ func (e *c05Env) routeLib(tree *c05Node, srcDir string, src []*c05Ent, cliBytes 
 	}
 	if d := e.snapshotOrFail(c, dst); d != nil {
 		e.report(c, c05Compare(src, d, c05Opts{noSameOwner: nso, noSamePerm: nsp, t0: t0, t1: t1}))
+		if withModel {
+			e.comparePrediction(c, src, d, nso, nsp, t0, t1)
+		}
 	}
 	if nso || nsp || !overwrite {
 		return
@@ -574,6 +577,9 @@ func (e *c05Env) routeCLI(tree *c05Node, srcDir string, src []*c05Ent, withModel
 			e.r.Fail("predicate", "untar/error", fmt.Sprintf("desync untar fails on an archive written by desync tar: %v: %s", err, short(out)), &cc)
 		} else if d := e.snapshotOrFail(&cc, dst); d != nil {
 			e.report(&cc, c05Compare(src, d, c05Opts{noSameOwner: v[0], noSamePerm: v[1], t0: t0, t1: t1}))
+			if withModel {
+				e.comparePrediction(&cc, src, d, v[0], v[1], t0, t1)
+			}
 		}
 		c05RemoveAll(dst)
 	}
@@ -693,4 +699,172 @@ func (e *c05Env) modeCorr() error {
 		}
 	}
 	return nil
+}
+
+// ---------- the model's prediction of the unpacked tree ----------
+
+type c05Pred struct {
+	Rel    string
+	Kind   string
+	Perm   uint32
+	UID    uint32
+	GID    uint32
+	Now    bool
+	Sec    int64
+	Nsec   int64
+	Xattrs string
+	Extra  string
+}
+
+// modelUntar asks the oracle for decode_archive + LocalFS writer run on the model's archive of src.
+func (e *c05Env) modelUntar(src []*c05Ent, nso, nsp bool) ([]c05Pred, string, error) {
+	var b strings.Builder
+	for _, s := range src {
+		b.WriteString(eventLine(s, s.Data))
+		b.WriteByte('\n')
+	}
+	in := e.scratch("ev")
+	out := e.scratch("pred")
+	defer os.Remove(in)
+	defer os.Remove(out)
+	if err := os.WriteFile(in, []byte(b.String()), 0600); err != nil {
+		return nil, "", err
+	}
+	f := func(x bool) string {
+		if x {
+			return "1"
+		}
+		return "0"
+	}
+	ans, err := e.o.Call("c05.untar", in, f(nso), f(nsp), strconv.Itoa(os.Geteuid()), strconv.Itoa(os.Getegid()), "18", out)
+	if err != nil {
+		return nil, "", err
+	}
+	if !strings.HasPrefix(ans, "OK") {
+		return nil, ans, nil
+	}
+	raw, err := os.ReadFile(out)
+	if err != nil {
+		return nil, "", err
+	}
+	var ps []c05Pred
+	for _, ln := range strings.Split(strings.TrimSpace(string(raw)), "\n") {
+		f := strings.Split(ln, " ")
+		if len(f) != 8 {
+			return nil, "", fmt.Errorf("bad prediction line %q", ln)
+		}
+		p := c05Pred{Kind: f[1], Xattrs: f[6], Extra: f[7]}
+		if f[0] == "-" {
+			p.Rel = "."
+		} else {
+			var cs []string
+			for _, c := range strings.Split(f[0], "/") {
+				cs = append(cs, string(vh.UnHex(c)))
+			}
+			p.Rel = strings.Join(cs, "/")
+		}
+		u, _ := strconv.ParseUint(f[2], 10, 64)
+		p.Perm = uint32(u)
+		u, _ = strconv.ParseUint(f[3], 10, 64)
+		p.UID = uint32(u)
+		u, _ = strconv.ParseUint(f[4], 10, 64)
+		p.GID = uint32(u)
+		if f[5] == "NOW" {
+			p.Now = true
+		} else {
+			u, _ = strconv.ParseUint(f[5], 10, 64)
+			ns := int64(u)
+			ts := nsToTimespec(ns)
+			p.Sec, p.Nsec = ts.Sec, ts.Nsec
+			if p.Sec < -2147483648 { // ext4 cannot go further back
+				p.Sec, p.Nsec = -2147483648, 0
+			}
+		}
+		ps = append(ps, p)
+	}
+	return ps, "OK", nil
+}
+
+// comparePrediction: the unpacked tree must be exactly what the model of the LocalFS writer leaves behind.
+func (e *c05Env) comparePrediction(c *c05Case, src, dst []*c05Ent, nso, nsp bool, t0, t1 time.Time) {
+	if e.o == nil {
+		return
+	}
+	ps, status, err := e.modelUntar(src, nso, nsp)
+	if err != nil {
+		e.r.Note("oracle: %v", err)
+		return
+	}
+	e.r.Corr()
+	fail := func(what string) {
+		cc := *c
+		cc.Detail = what
+		e.r.Fail("corr", "corr:C05/untar-result", fmt.Sprintf("route %s: unpacked tree differs from the model of the LocalFS writer: %s", c.Route, what), &cc)
+	}
+	if status != "OK" {
+		fail("the model run ends with " + status + ", the implementation succeeded")
+		return
+	}
+	if len(ps) != len(dst) {
+		fail(fmt.Sprintf("model has %d objects, implementation %d", len(ps), len(dst)))
+		return
+	}
+	for i, p := range ps {
+		d := dst[i]
+		q := fmt.Sprintf("%q", p.Rel)
+		switch {
+		case p.Rel != d.Rel:
+			fail(fmt.Sprintf("object %d is %q in the model, %q on disk", i, p.Rel, d.Rel))
+		case p.Kind != d.kind():
+			fail(q + ": kind " + p.Kind + " vs " + d.kind())
+		case p.Perm != d.Mode&07777:
+			fail(fmt.Sprintf("%s: mode %04o in the model, %04o on disk", q, p.Perm, d.Mode&07777))
+		case p.UID != d.UID || p.GID != d.GID:
+			fail(fmt.Sprintf("%s: owner %d:%d in the model, %d:%d on disk", q, p.UID, p.GID, d.UID, d.GID))
+		case p.Xattrs != strings.TrimSuffix(xattrPredString(d.Xattrs), ","):
+			fail(fmt.Sprintf("%s: xattrs %s in the model, %s on disk", q, p.Xattrs, xattrPredString(d.Xattrs)))
+		default:
+			dt := time.Unix(d.Sec, d.Nsec)
+			if p.Now {
+				if dt.Before(t0.Add(-2*time.Second)) || dt.After(t1.Add(2*time.Second)) {
+					fail(fmt.Sprintf("%s: the model leaves the time of extraction, on disk the mtime is %s", q, fmtTime(d.Sec, d.Nsec)))
+					return
+				}
+			} else if p.Sec != d.Sec || p.Nsec != d.Nsec {
+				fail(fmt.Sprintf("%s: mtime %s in the model, %s on disk", q, fmtTime(p.Sec, p.Nsec), fmtTime(d.Sec, d.Nsec)))
+				return
+			}
+			switch p.Kind {
+			case "dir":
+				if p.Extra != strconv.Itoa(d.Kids) {
+					fail(fmt.Sprintf("%s: %s entries in the model, %d on disk", q, p.Extra, d.Kids))
+					return
+				}
+			case "file":
+				if p.Extra != fmt.Sprintf("%d:%x", d.Size, d.Sum) {
+					fail(fmt.Sprintf("%s: content %s in the model, %d:%x on disk", q, p.Extra, d.Size, d.Sum))
+					return
+				}
+			case "link":
+				if string(vh.UnHex(p.Extra)) != d.Target {
+					fail(fmt.Sprintf("%s: link target differs", q))
+					return
+				}
+			case "chr", "blk":
+				if p.Extra != strconv.FormatUint(d.Rdev, 10) {
+					fail(fmt.Sprintf("%s: device number %s in the model, %d on disk", q, p.Extra, d.Rdev))
+					return
+				}
+			}
+			continue
+		}
+		return
+	}
+}
+
+func xattrPredString(m map[string]string) string {
+	if len(m) == 0 {
+		return "-"
+	}
+	return xattrString(m)
 }
